@@ -174,6 +174,7 @@ class State:
         self.loop_entry = {}
         self.parted = frozenset()
         self.src = None
+        self.mono = None      # optional: SSA name -> direction (+1, -1, 0) in which the value moves when parameter 0 grows
 
     def fork(self):
         s = State.__new__(State)
@@ -197,6 +198,7 @@ class State:
         s.loop_entry = self.loop_entry
         s.parted = self.parted
         s.src = self.src
+        s.mono = None if self.mono is None else dict(self.mono)
         return s
 
     # ---------------------------------------------------------- ranges
